@@ -1,0 +1,15 @@
+//go:build verif
+// +build verif
+
+package bip39
+
+import "io"
+
+// VerifSwapRandSource replaces the package-level randomness source consulted
+// by NewMnemonic and returns the previous one. It only exists in builds with
+// the "verif" tag and is used by external verification harnesses.
+func VerifSwapRandSource(r io.Reader) io.Reader {
+	old := cryptoRander
+	cryptoRander = r
+	return old
+}
